@@ -42,6 +42,10 @@ pub struct VolCfg {
     /// starts from the builder's ground truth
     #[serde(default)]
     pub populate: Option<Populate>,
+    /// FAT32: the FS-info free count is this value if that is lower than the table's count (a stale hint, which the
+    /// specification allows)
+    #[serde(default)]
+    pub stale_free: Option<u32>,
 }
 
 #[derive(Clone, Debug, Serialize, Deserialize, PartialEq, Eq, Hash)]
@@ -159,6 +163,7 @@ impl VolCfg {
             large: None,
             short_io: 0,
             populate: None,
+            stale_free: None,
         }
     }
     /// generated-geometry variants (what the library's formatter cannot produce)
@@ -205,6 +210,7 @@ impl VolCfg {
             large: None,
             short_io: 0,
             populate: None,
+            stale_free: None,
         }
     }
     pub fn cluster_size(&self) -> u32 {
@@ -336,7 +342,13 @@ fn build_base(cfg: &VolCfg) -> Result<Store, String> {
     if g.width == 32 {
         let o = g.fsinfo_off();
         let free = g.count_free(&store) as u32;
-        let v = if cfg.fsinfo_unknown { 0xFFFF_FFFFu32 } else { free };
+        let v = if cfg.fsinfo_unknown {
+            0xFFFF_FFFFu32
+        } else if let Some(d) = cfg.stale_free {
+            free.min(d)
+        } else {
+            free
+        };
         store.write_at(o + 488, &v.to_le_bytes());
     }
     Ok(store)
